@@ -43,6 +43,18 @@ CHECKS = {
  "C13": dict(technique="TLC model checking of the histogram rule against the requirement over all small compositions + TLC validation of kalign's decision on concretised compositions (BiotypeTrace)",
              text="Biotype.tla states the requirement on residue letters and a model of the code's likelihood rule; TLC shows over all class-count vectors up to 9 residues where they agree (the U-rich region is the documented known finding; a twin config exhibits it). BiotypeTrace checks kalign's decision (after kalign_read_input for FASTA/aligned FASTA/Clustal/MSF and inside kalign()) for every premise-satisfying vector up to 9-12 residues, large compositions with reordered/renamed copies, gap-heavy alignments and inputs of more than 512 records.",
              note="compositions enumerated by letter class, letters within a class sampled; one known finding (U-rich proteins)", ref="DESIGN 5.C13"),
+ "C04": dict(technique="TLC-validated relational traces (Relate!SameRows) over re-presentations generated from one record set",
+             text="Each set of named sequences is presented as bare FASTA (reference) and as FASTA at other widths, unwrapped with blank lines, aligned FASTA with random gap insertions up to 20 gap characters per residue and three gap symbols, Clustal and MSF variants, splits over 2..n files in mixed formats, alignments wider than 8192 columns unwrapped, and through the command line (-i, positional, stdin, stdin + file); TLC requires identical names and rows in every member of the group.",
+             note="presentations are generated inputs (sampled); the reader itself is bound by the relation, not by a line-level reader model", ref="DESIGN 5.C04"),
+ "C05": dict(technique="TLC-enumerated input files and option vectors replayed under sanitizers; TLC validation of the outcome protocol (ProtoTrace, CliTrace) and of alphabet totality (AlphabetTrace)",
+             text="The specification decides (a) that every letter has a class in the real code tables, (b) the outcome protocol of read/run/write on every file of up to 2 lines over 27 line kinds and thousands of longer ones enumerated by TLC from FileGen.tla (success implies a well-formed object and a valid alignment of what was read; otherwise a failure status), (c) the protocol of the command line over option vectors enumerated from Cli.tla (exit 0 implies a valid alignment, failure implies non-zero exit and a message, must-fail and must-succeed classes). Memory clauses are observed on those executions by ASan, UBSan and LeakSanitizer.",
+             note="memory safety is observed by sanitizers on generated executions, not decided by the model (DESIGN section 8); leaks are judged on the success path only; timeouts are confirmed at 4x", ref="DESIGN 5.C05"),
+ "C07": dict(technique="TLC model checking of the fold DPs against brute force (MC_Scoring) + TLC-computed uniqueness certificates on planted cases (ScoringTrace)",
+             text="Scoring.tla states kalign's affine scoring model with the end-gap charge as an interval; TLC shows the forward/backward fold DPs and the through-scores equal brute force over all alignments of tiny sequences. For every planted case TLC computes, with the parameters the kernels actually read, whether the planted alignment beats every other alignment under every admissible end-gap charge by more than the tie-break and float slack; only then kalign must return exactly that alignment (pairs and groups of 1..3 identical copies, all types, user penalties, both sides of the 500-column switch).",
+             note="cases without a certificate are skipped and counted; the interval model makes certification conservative for terminal overhangs", ref="DESIGN 5.C07"),
+ "C16": dict(technique="TLC enumeration of API histories with dependency chains (Api.tla) + TLC comparison of each call's result with its chain replayed in a fresh process (ApiTrace) + LeakSanitizer",
+             text="Api.tla models the object life cycle; TLC enumerates every well-formed history of 3 (quick) or 4 calls over 2 handles, 2 inputs, 2 parameter sets and 2 formats together with the chain of calls each result may depend on. Each history runs in one process; every call's observable result (return code, projected object, rows, score, file bytes) must equal the result of its chain in a fresh process. Seeded long histories and a sample of the enumerated ones run under LeakSanitizer with all objects freed.",
+             note="histories bounded by MaxCalls; the projection of struct msa is trusted", ref="DESIGN 5.C16"),
 }
 NOT_YET = {}
 ALL = ["C%02d" % i for i in range(1, 18)]
